@@ -42,12 +42,9 @@ func specUploader(u *uploader) bool {
 // file is a successfully parsed one.
 //@ predicate uploaderOK(u *uploader): specUploader(u) && (forall k string :: in(k, u.cache.m) ==> u.cache.m[k] != nil && u.cache.m[k].Meta != nil && u.cache.m[k].Count != nil)
 
-// specBeforeNewline(k): the part of a stack-counter name before its first
-// newline (the name the configuration lists). Uninterpreted here; tied to the
-// code by the contract of strings.Cut (before == s[:i], no separator inside).
-func specBeforeNewline(k string) string { return k }
-
-//@ uninterpreted specBeforeNewline
+// config.SpecStackName(k): the part of a stack-counter name before its first
+// newline (the name the configuration lists); shared with the server and the
+// viewer (C11). Tied to the code here by the contract of strings.Cut.
 
 // specPrograms: every program entry of a report under construction is usable.
 func specProgram(p *telemetry.ProgramReport) bool {
@@ -218,20 +215,29 @@ func specProgram(p *telemetry.ProgramReport) bool {
 //@   loop 4: invariant forall k string :: !in(k, x.Stacks)
 //@   loop 5: invariant forall k string :: in(k, x.Counters) ==> in(k, p.Counters) && cfg.HasCounter(p.Program, k) && report.X <= cfg.Rate(p.Program, k) && x.Counters[k] == p.Counters[k]
 //@   at loop 5 entry: assert forall k string :: in(k, p.Counters) && cfg.HasCounter(p.Program, k) && report.X <= cfg.Rate(p.Program, k) ==> in(k, x.Counters)
-//@   loop 5: invariant forall k string :: in(k, x.Stacks) ==> in(k, p.Stacks) && cfg.HasStack(p.Program, specBeforeNewline(k)) && report.X <= cfg.Rate(p.Program, specBeforeNewline(k)) && x.Stacks[k] == p.Stacks[k]
-//@   loop 5: invariant forall k string :: visited(p.Stacks, k) && cfg.HasStack(p.Program, specBeforeNewline(k)) && report.X <= cfg.Rate(p.Program, specBeforeNewline(k)) ==> in(k, x.Stacks)
+//@   loop 5: invariant forall k string :: in(k, x.Stacks) ==> in(k, p.Stacks) && cfg.HasStack(p.Program, config.SpecStackName(k)) && report.X <= cfg.Rate(p.Program, config.SpecStackName(k)) && x.Stacks[k] == p.Stacks[k]
+//@   loop 5: invariant forall k string :: visited(p.Stacks, k) && cfg.HasStack(p.Program, config.SpecStackName(k)) && report.X <= cfg.Rate(p.Program, config.SpecStackName(k)) ==> in(k, x.Stacks)
 // ... so that at the end of each program's iteration (loop 3) the entry appended
 // to the upload report is exactly the approved part of the local entry, for an
 // approved program build, with the five metadata fields copied.
-//@   at call Cut#1: after assume result0 == specBeforeNewline(arg0)
+//@   at call Cut#1: after assume result0 == config.SpecStackName(arg0)
 //@   at loop 3 end: assert x.Program == p.Program && x.Version == p.Version && x.GoVersion == p.GoVersion && x.GOOS == p.GOOS && x.GOARCH == p.GOARCH
-//@   at loop 3 end: assert cfg.HasGoVersion(x.GoVersion) && cfg.HasProgram(x.Program) && cfg.HasVersion(x.Program, x.Version)
+//@   at loop 3 end: assert cfg.HasGoVersion(x.GoVersion) && cfg.HasProgram(x.Program) && cfg.HasVersion(x.Program, x.Version) && cfg.HasGOOS(x.GOOS) && cfg.HasGOARCH(x.GOARCH)
 //@   at loop 3 end: assert forall k string :: in(k, x.Counters) ==> in(k, p.Counters) && cfg.HasCounter(p.Program, k) && report.X <= cfg.Rate(p.Program, k)
 //@   at loop 3 end: assert forall k string :: in(k, x.Counters) ==> x.Counters[k] == p.Counters[k]
-//@   at loop 3 end: assert forall k string :: in(k, x.Stacks) <==> in(k, p.Stacks) && cfg.HasStack(p.Program, specBeforeNewline(k)) && report.X <= cfg.Rate(p.Program, specBeforeNewline(k))
+//@   at loop 3 end: assert forall k string :: in(k, x.Stacks) <==> in(k, p.Stacks) && cfg.HasStack(p.Program, config.SpecStackName(k)) && report.X <= cfg.Rate(p.Program, config.SpecStackName(k))
 //@   at loop 3 end: assert forall k string :: in(k, x.Stacks) ==> x.Stacks[k] == p.Stacks[k]
 //@   at loop 3 end: assert len(upload.Programs) >= 1 && upload.Programs[len(upload.Programs)-1] == x
 //@   loop 3: invariant forall j int :: 0 <= j && j < len(upload.Programs) ==> upload.Programs[j] != nil && cfg.HasGoVersion(upload.Programs[j].GoVersion) && cfg.HasProgram(upload.Programs[j].Program) && cfg.HasVersion(upload.Programs[j].Program, upload.Programs[j].Version)
+// C11: what is handed to the JSON encoder for upload is an approved report in
+// the shared vocabulary of package config.
+//@   loop 3: invariant same(upload.X, report.X) && upload.Week == report.Week
+//@   loop 3: invariant forall j int :: 0 <= j && j < len(upload.Programs) ==> approvedBuild(cfg, upload.Programs[j])
+//@   loop 3: invariant forall j int :: 0 <= j && j < len(upload.Programs) ==> allocated(upload.Programs[j]) && allocated(upload.Programs[j].Counters) && allocated(upload.Programs[j].Stacks)
+//@   loop 3: invariant forall j int, k string :: 0 <= j && j < len(upload.Programs) && in(k, upload.Programs[j].Counters) ==> cfg.HasCounter(upload.Programs[j].Program, k)
+//@   loop 3: invariant forall j int, k string :: 0 <= j && j < len(upload.Programs) && in(k, upload.Programs[j].Stacks) ==> cfg.HasStack(upload.Programs[j].Program, config.SpecStackName(k))
+//@   at call MarshalIndent#2: assert same(upload.X, report.X) && upload.Week == report.Week
+//@   at call MarshalIndent#2: assert approvedReport(cfg, upload)
 //@   modifies u.cache.m, entries(u.cache.m), maps(string, int64), $fsops, $reportExists, $contributed, $minsize
 
 // uploadReport: a report dated in the future is not sent.
